@@ -3,14 +3,15 @@
 (*   P  plain line (addr 10)            G  line inside gen<T>, instantiated twice       *)
 (*   L  loop body line, 3 arrivals      F  function `fin` (function breakpoint, 40)     *)
 (*   I  first instruction of `ins` (instruction breakpoint, 50)                         *)
+(*   A, B  `alpha::c13work` / `beta::c13work`: one function-breakpoint name, two places  *)
 EXTENDS DapBp
 cPlaces == (1 :> {10}) @@ (2 :> {20, 25}) @@ (3 :> {30})
 cFirst == (1 :> 10) @@ (2 :> 20) @@ (3 :> 30)
 cAltFirst == (1 :> 10) @@ (2 :> 25) @@ (3 :> 30)
-cFnPlaces == [fin |-> {40}, nosuch |-> {}]
-cExec == <<10, 20, 25, 30, 30, 30, 40, 50>>
-cLoc == (10 :> "P") @@ (20 :> "G") @@ (25 :> "G") @@ (30 :> "L") @@ (40 :> "F") @@ (50 :> "I")
-cIterAt == [p \in 0..9 |-> IF p < 4 THEN 0 ELSE IF p <= 6 THEN p - 3 ELSE 3]
+cFnPlaces == [fin |-> {40}, nosuch |-> {}, work |-> {60, 65}]
+cExec == <<10, 20, 25, 30, 30, 30, 40, 50, 60, 65>>
+cLoc == (10 :> "P") @@ (20 :> "G") @@ (25 :> "G") @@ (30 :> "L") @@ (40 :> "F") @@ (50 :> "I") @@ (60 :> "A") @@ (65 :> "B")
+cIterAt == [p \in 0..11 |-> IF p < 4 THEN 0 ELSE IF p <= 6 THEN p - 3 ELSE 3]
 Repaired == [kindless |-> TRUE, all |-> TRUE, rfilter |-> TRUE, bareident |-> TRUE, insnchk |-> TRUE, altfirst |-> FALSE]
 AsWritten == [kindless |-> FALSE, all |-> FALSE, rfilter |-> FALSE, bareident |-> FALSE, insnchk |-> FALSE, altfirst |-> FALSE]
 Only(d) == [Repaired EXCEPT ![d] = FALSE]        \* every repair except d: the single defect d
